@@ -455,6 +455,10 @@ namespace bxdecay0 {
             = (_pimpl_->tab_prob.e_max[0] - _pimpl_->tab_prob.e_min[0]) / (_pimpl_->tab_prob.nsamples - 1);
         for (int i = 0; i < (int)_pimpl_->tab_prob.nsamples; i++) {
           double ei = _pimpl_->tab_prob.e_min[0] + i * _pimpl_->tab_prob.energy_step;
+          if (i > 0 and ei <= _pimpl_->tab_prob.energies.back()) {
+            // E range too narrow for the number of samples: the grid must be strictly increasing
+            throw std::logic_error("bxdecay0::dbd_gA::_load_tabulated_pdf_: Invalid E range!");
+          }
           _pimpl_->tab_prob.energies.push_back(ei);
           _pimpl_->tab_prob.e_samples[0].push_back(ei);
           _pimpl_->tab_prob.e_samples[1].push_back(ei);
